@@ -54,6 +54,10 @@ enum Ev {
 }
 
 pub trait PopLike: Send + Sync {
+    /// what the population holds (the child itself, or a wrapper with its own notion of equality)
+    type Item: From<Child> + Send + Sync;
+    /// a set-like population keeps one representative of children that compare equal
+    const COLLAPSES: bool = false;
     fn fp(&self) -> u64;
     fn n(&self) -> usize;
     fn serials(&self) -> Vec<u64>;
@@ -72,6 +76,7 @@ fn fp_of<'a>(it: impl Iterator<Item = &'a Child>) -> u64 {
 }
 
 impl PopLike for Vec<Child> {
+    type Item = Child;
     fn fp(&self) -> u64 {
         fp_of(self.iter())
     }
@@ -87,6 +92,7 @@ impl PopLike for Vec<Child> {
 }
 
 impl PopLike for VecDeque<Child> {
+    type Item = Child;
     fn fp(&self) -> u64 {
         fp_of(self.iter())
     }
@@ -98,6 +104,55 @@ impl PopLike for VecDeque<Child> {
     }
     fn children(&self) -> Vec<Child> {
         self.iter().cloned().collect()
+    }
+}
+
+/// Member of a set-like population: children are equal when their keys are, so a generation of
+/// n children may legitimately collapse to fewer individuals - and the *next* step must then make
+/// exactly as many children as the population has *now*.
+#[derive(Clone, Debug)]
+pub struct Keyed(pub Child);
+
+pub fn key_of(serial: u64) -> u64 {
+    // the initial individuals are all different; children fall into three classes
+    if serial < 1_000_000 { serial + 10 } else { serial % 3 }
+}
+impl From<Child> for Keyed {
+    fn from(c: Child) -> Self {
+        Keyed(c)
+    }
+}
+impl PartialEq for Keyed {
+    fn eq(&self, o: &Self) -> bool {
+        key_of(self.0.serial) == key_of(o.0.serial)
+    }
+}
+impl Eq for Keyed {}
+impl PartialOrd for Keyed {
+    fn partial_cmp(&self, o: &Self) -> Option<std::cmp::Ordering> {
+        Some(self.cmp(o))
+    }
+}
+impl Ord for Keyed {
+    fn cmp(&self, o: &Self) -> std::cmp::Ordering {
+        key_of(self.0.serial).cmp(&key_of(o.0.serial))
+    }
+}
+
+impl PopLike for BTreeSet<Keyed> {
+    type Item = Keyed;
+    const COLLAPSES: bool = true;
+    fn fp(&self) -> u64 {
+        fp_of(self.iter().map(|k| &k.0))
+    }
+    fn n(&self) -> usize {
+        self.len()
+    }
+    fn serials(&self) -> Vec<u64> {
+        self.iter().map(|c| c.0.serial).collect()
+    }
+    fn children(&self) -> Vec<Child> {
+        self.iter().map(|k| k.0.clone()).collect()
     }
 }
 
@@ -173,10 +228,10 @@ impl Shared {
 }
 
 impl<'a, P: PopLike> Operator<&'a P> for Probe {
-    type Output = Child;
+    type Output = P::Item;
     type Error = ProbeError;
 
-    fn apply<R: Rng + ?Sized>(&self, pop: &'a P, rng: &mut R) -> Result<Child, ProbeError> {
+    fn apply<R: Rng + ?Sized>(&self, pop: &'a P, rng: &mut R) -> Result<P::Item, ProbeError> {
         let call = self.calls.fetch_add(1, Ordering::SeqCst);
         let thread = TID.with(|t| *t);
         let addr = std::ptr::from_ref(pop) as *const u8 as usize;
@@ -206,7 +261,7 @@ impl<'a, P: PopLike> Operator<&'a P> for Probe {
                 log.push(Ev::End { t, call: u64::MAX, thread, result: Err(u64::MAX) });
             }
         }
-        result
+        result.map(P::Item::from)
     }
 }
 
@@ -222,6 +277,7 @@ type Finding = (String, String);
 /// The offline checker.
 #[allow(clippy::too_many_arguments)]
 fn check_step(
+    collapses: bool,
     parallel: bool,
     before: &[Child],
     before_addr: usize,
@@ -293,7 +349,13 @@ fn check_step(
             if !errors.is_empty() {
                 f.push((format!("C09/{mode}/error-swallowed"), format!("child creation failed at calls {errors:?} but the step reported success")));
             }
-            if after.len() != n {
+            if collapses {
+                // set-like population: one representative per class of equal children
+                let classes: BTreeSet<u64> = ok_children.iter().map(|c| key_of(c.0)).collect();
+                if after.len() != classes.len() {
+                    f.push((format!("C09/{mode}/population-size-changed"), format!("{} children in {} classes were made, the set-like population holds {}", ok_children.len(), classes.len(), after.len())));
+                }
+            } else if after.len() != n {
                 f.push((format!("C09/{mode}/population-size-changed"), format!("population had {n} individuals, the next generation has {}", after.len())));
             }
             if calls != n {
@@ -304,7 +366,13 @@ fn check_step(
             got.sort_unstable();
             let mut issued: Vec<u64> = ok_children.iter().map(|c| c.0).collect();
             issued.sort_unstable();
-            if got != issued {
+            if collapses {
+                // every member is a child issued in this step, none twice
+                let issued_set: BTreeSet<u64> = issued.iter().copied().collect();
+                if got.iter().any(|s| !issued_set.contains(s)) || got.windows(2).any(|w| w[0] == w[1]) {
+                    f.push((format!("C09/{mode}/children-lost-duplicated-or-foreign"), format!("the set-like population holds serials {:?} that were not issued in this step (or holds one twice)", got.iter().filter(|s| !issued_set.contains(s)).take(5).collect::<Vec<_>>())));
+                }
+            } else if got != issued {
                 let lost: Vec<&u64> = issued.iter().filter(|s| !got.contains(s)).take(5).collect();
                 let foreign: Vec<&u64> = got.iter().filter(|s| !issued.contains(s)).take(5).collect();
                 let dup = got.windows(2).any(|w| w[0] == w[1]);
@@ -357,7 +425,8 @@ pub struct Cfg {
     pub size: usize,
     pub parallel: bool,
     pub pool: usize,
-    pub deque: bool,
+    /// 0 = Vec, 1 = VecDeque, 2 = BTreeSet of keyed children (collapses equal children)
+    pub kind: u8,
     pub delay_mode: u8,
     pub fail: BTreeSet<u64>,
     pub steps: usize,
@@ -381,8 +450,11 @@ pub fn run_cfg(cfg: &Cfg, seed: u64) -> CfgOutcome {
     let mut out = CfgOutcome::default();
     let probe = Probe::new(1_000_000, cfg.delay_mode, seed);
     let body = |out: &mut CfgOutcome| {
-        if cfg.deque {
+        if cfg.kind == 1 {
             let pop: VecDeque<Child> = initial(cfg.size, 0).into_iter().collect();
+            drive_ref(pop, cfg, probe.clone(), out);
+        } else if cfg.kind == 2 {
+            let pop: BTreeSet<Keyed> = initial(cfg.size, 0).into_iter().map(Keyed).collect();
             drive_ref(pop, cfg, probe.clone(), out);
         } else {
             drive_ref(initial(cfg.size, 0), cfg, probe.clone(), out);
@@ -401,7 +473,7 @@ pub fn run_cfg(cfg: &Cfg, seed: u64) -> CfgOutcome {
 
 fn drive_ref<P>(pop: P, cfg: &Cfg, probe: Probe, out: &mut CfgOutcome)
 where
-    P: PopLike + ec_core::population::Population<Individual = Child> + FromIterator<Child> + rayon::iter::FromParallelIterator<Child>,
+    P: PopLike + ec_core::population::Population<Individual = <P as PopLike>::Item> + FromIterator<<P as PopLike>::Item> + rayon::iter::FromParallelIterator<<P as PopLike>::Item>,
 {
     let mut generation: Generation<P, Probe> = Generation::new(probe.clone(), pop);
     for step in 0..cfg.steps {
@@ -415,7 +487,7 @@ where
         let after = generation.population().children();
         let log = probe.log.lock().unwrap().clone();
         let next_serial = probe.serials.load(Ordering::SeqCst);
-        let (f, st) = check_step(cfg.parallel, &before, before_addr, before_fp, &result, &after, &log, &injected, first_serial, next_serial);
+        let (f, st) = check_step(P::COLLAPSES, cfg.parallel, &before, before_addr, before_fp, &result, &after, &log, &injected, first_serial, next_serial);
         out.findings.extend(f);
         out.steps_run += 1;
         out.calls += log.iter().filter(|e| matches!(e, Ev::Start { .. })).count() as u64;
